@@ -153,7 +153,7 @@ def declarations():
 
 
 def units():
-    out = []
+    out = ["int (g) = 1;", "int (*p) = 0;", "int ((a)) = 2, b = 3;", "char (s[4]) = \"abc\";", "void f(void) { int (x) = 1; }"]
     for s in statements():
         out.append("void f(void) { %s }" % s)
     for e in expressions():
